@@ -212,6 +212,37 @@ pub fn judge(c: &Case, st: &mut Stats) -> Verdict {
             }
         }
     }
+    // a sink that is itself a formatter of such values (a logging writer that tags every chunk it is handed with the line of
+    // its own connection): the outer value and the inner one both come out as their lines
+    {
+        use std::fmt::Write as _;
+        struct Tagging<'a> {
+            inner: &'a ppp::v1::Addresses,
+            tags: Vec<String>,
+            out: String,
+            depth: u8,
+        }
+        impl std::fmt::Write for Tagging<'_> {
+            fn write_str(&mut self, x: &str) -> std::fmt::Result {
+                if self.depth == 0 {
+                    self.depth = 1;
+                    let mut t = String::new();
+                    let r = write!(t, "{}", self.inner);
+                    self.depth = 0;
+                    r?;
+                    self.tags.push(t);
+                }
+                self.out.push_str(x);
+                Ok(())
+            }
+        }
+        let mut sink = Tagging { inner: &lib, tags: Vec::new(), out: String::new(), depth: 0 };
+        match crate::engine::guard(std::panic::AssertUnwindSafe(|| write!(sink, "{}", lib))) {
+            Ok(Ok(())) if sink.out == s && sink.tags.iter().all(|t| *t == s) => {}
+            Ok(other) => return fail("format-into-formatting-sink", format!("the line {:?} outside and inside", s), format!("{:?}, wrote {:?}, tags {:?}", other, sink.out, sink.tags.first())),
+            Err(p) => return fail("format-panics", "a line (the sink formats a value of the same type)".into(), format!("panic: {}", p)),
+        }
+    }
     // whatever options the caller's format spec carries (a width below the line length, sign, zero padding, alternate
     // form, left-aligned padding to a large width), the text is still a well-formed line for the same value. (Specs under
     // which a `Formatter::pad`-style implementation would legitimately cut or left-pad the line - precision, right
@@ -300,6 +331,35 @@ pub fn judge(c: &Case, st: &mut Stats) -> Verdict {
         match imp::v1_bytes(with.as_bytes()) {
             Ok(Ok(h)) if imp::addr1(&h.addresses) == *a && h.header == want_text && h.to_string() == want_text => {}
             other => return fail("roundtrip-with-payload:try_from(&[u8])", format!("Ok with {:?} and header text == the line", a), imp::short(&format!("{:?}", other))),
+        }
+        // a completely filled read buffer of the usual sizes (4 KiB, 64 KiB, 128 KiB, one byte less / more): line first, payload
+        // behind it. Few cases (the buffer is built and scanned four times).
+        if d % 48 == 0 {
+            let size = [4096usize, 65535, 65536, 65537, 131072, 65536 + s.len() / 2, 65536 + s.len() - 1, 65536 * 3][(d / 48 % 8) as usize];
+            let mut big = String::with_capacity(size + 8);
+            big.push_str(&s);
+            while big.len() + unit.len() <= size {
+                big.push_str(unit);
+            }
+            while big.len() < size {
+                big.push('x');
+            }
+            match imp::v1_str(&big) {
+                Ok(Ok(h)) if imp::addr1(&h.addresses) == *a && h.header == want_text => {}
+                other => return fail("roundtrip-in-full-read-buffer:try_from(&str)", format!("Ok with {:?} and header text == the line ({} bytes given)", a, big.len()), imp::short(&format!("{:?}", other))),
+            }
+            match imp::v1_bytes(big.as_bytes()) {
+                Ok(Ok(h)) if imp::addr1(&h.addresses) == *a && h.header == want_text => {}
+                other => return fail("roundtrip-in-full-read-buffer:try_from(&[u8])", format!("Ok with {:?} and header text == the line ({} bytes given)", a, big.len()), imp::short(&format!("{:?}", other))),
+            }
+            match imp::v1_fromstr_addr(&big) {
+                Ok(Ok(b)) if imp::addr1(&b) == *a => {}
+                other => return fail("roundtrip-in-full-read-buffer:parse::<Addresses>", format!("Ok({:?}) ({} bytes given)", a, big.len()), imp::short(&format!("{:?}", other))),
+            }
+            match imp::auto(big.as_bytes()) {
+                Ok(HeaderResult::V1(Ok(h))) if imp::addr1(&h.addresses) == *a && h.header == want_text => {}
+                other => return fail("roundtrip-in-full-read-buffer:HeaderResult::parse", format!("V1(Ok) with {:?} ({} bytes given)", a, big.len()), imp::short(&format!("{:?}", other))),
+            }
         }
         // the byte routes also with a payload that is not text (the start of a TLS handshake, a v2 header)
         let mut raw = s.as_bytes().to_vec();
